@@ -161,6 +161,8 @@ def selftest(ctx):
     for i, e in enumerate(evs):
         if (i + 1) in already or "ok" not in e["lift"] or e.get("out", {}).get("k") != "ok" or i % 3 != 0:
             continue
+        if "mul" in e["tag"].split("+") or e["tag"] in ("cmpwi", "cmplwi", "cmpw", "cmplw"):
+            continue        # HI/LO after mul, the SO bit of a compare: don't-care components are (rightly) not compared
         kind = j % 11
         j += 1
         post = e["post"]
